@@ -507,6 +507,22 @@ theorem get_moveaxis_fwd [Inhabited α] (a : NDArr α) (sb ss st : List Nat) (n 
     rw [inRange_append hbl, inRange_append hsl]
     exact ⟨hb, hs, hx, ht⟩
 
+/-- block form of `get_moveaxis`, other direction (axis behind the block `s` moved in front) -/
+theorem get_moveaxis_bwd [Inhabited α] (a : NDArr α) (sb ss st : List Nat) (n : Nat)
+    (hsh : a.shape = sb ++ (ss ++ n :: st)) (b s t : List Nat) (x : Nat)
+    (hb : InRange sb b) (hs : InRange ss s) (ht : InRange st t) (hx : x < n) :
+    (a.moveaxis (sb.length + ss.length) sb.length).get (b ++ x :: (s ++ t))
+      = a.get (b ++ (s ++ x :: t)) := by
+  have hbl := hb.length_eq
+  have hsl := hs.length_eq
+  rw [get_moveaxis]
+  · rw [← hbl, ← hsl, moveList_fwd]
+  · rw [hsh, moveList_bwd]
+    rw [inRange_append hbl]
+    refine ⟨hb, hx, ?_⟩
+    rw [inRange_append hsl]
+    exact ⟨hs, ht⟩
+
 /-! ### concat -/
 
 @[simp] theorem shape_concat [Inhabited α] (ax : Nat) (a b : NDArr α) :
@@ -962,6 +978,37 @@ theorem normAxis_neg_one {r : Nat} (h : 0 < r) : normAxis r (-1) = r - 1 := by
 
 namespace NDArr
 variable {α : Type}
+/-- concatenating onto an empty array (extent 0 along the axis) gives the second operand -/
+theorem concat_empty_left [Inhabited α] {e x : NDArr α} {ax : Nat} (he : e.shape = x.shape.set ax 0)
+    (hx : x.WF) (hax : ax < x.shape.length) : concat ax e x = x := by
+  have h0 : e.shape.getD ax 0 = 0 := by rw [he, getD_set_self hax]
+  have hsh : (concat ax e x).shape = x.shape := by
+    rw [shape_concat, h0, he, List.set_set, Nat.zero_add, set_getD_self _ _ _ hax]
+  apply ext_get hsh (wf_concat _ _ _) hx
+  intro i hi
+  have hi0 := hi
+  rw [hsh] at hi
+  have hil : ax < i.length := by rw [hi.length_eq]; exact hax
+  rw [get_concat _ _ _ (by rw [← shape_concat]; exact hi0), h0, if_neg (Nat.not_lt_zero _),
+    Nat.sub_zero, set_getD_self _ _ _ hil]
+
+/-- replacing the last extent -/
+theorem set_last (l : List Nat) (n v : Nat) : (l ++ [n]).set l.length v = l ++ [v] := by
+  induction l with
+  | nil => rfl
+  | cons a l ih => simp [ih]
+
+/-- replacing the extent right behind a prefix -/
+theorem set_mid (l r : List Nat) (n v : Nat) : (l ++ n :: r).set l.length v = l ++ v :: r := by
+  induction l with
+  | nil => rfl
+  | cons a l ih => simp [ih]
+
+theorem getD_mid (l r : List Nat) (n : Nat) : (l ++ n :: r).getD l.length 0 = n := by
+  induction l with
+  | nil => rfl
+  | cons a l ih => simp
+
 end NDArr
 
 end GinjaxVerif.ND
